@@ -232,8 +232,18 @@ func (eng *Engine) freeVarIsCell(fn *ssa.Function, i int) bool {
 	for _, b := range par.Blocks {
 		for _, in := range b.Instrs {
 			if mc, ok := in.(*ssa.MakeClosure); ok && mc.Fn == fn && i < len(mc.Bindings) {
-				_, isAlloc := mc.Bindings[i].(*ssa.Alloc)
-				return isAlloc
+				if _, isAlloc := mc.Bindings[i].(*ssa.Alloc); isAlloc {
+					return true
+				}
+				// nested closure: the binding is the parent's own free variable (already a pointer to the cell)
+				if pfv, ok := mc.Bindings[i].(*ssa.FreeVar); ok {
+					for j, f := range par.FreeVars {
+						if f == pfv {
+							return eng.freeVarIsCell(par, j)
+						}
+					}
+				}
+				return false
 			}
 		}
 	}
@@ -589,6 +599,14 @@ func (eng *Engine) freeVarReadOnly(fn *ssa.Function, i int) bool {
 			if mc, ok := in.(*ssa.MakeClosure); ok && mc.Fn == fn && i < len(mc.Bindings) {
 				if a, ok := mc.Bindings[i].(*ssa.Alloc); ok {
 					alloc = a
+				} else if pfv, ok := mc.Bindings[i].(*ssa.FreeVar); ok {
+					// nested closure: read-only iff the parent's view of the cell is read-only and the parent does not write it
+					for j, f := range par.FreeVars {
+						if f == pfv {
+							return !freeVarWrittenOrLeaked(pfv, 0) && eng.freeVarReadOnly(par, j)
+						}
+					}
+					return false
 				} else {
 					return false
 				}
@@ -624,4 +642,38 @@ func (eng *Engine) freeVarReadOnly(fn *ssa.Function, i int) bool {
 		}
 	}
 	return stores <= 1
+}
+
+
+// ifaceNoModFor: does an interface contract that fn implements declare the method read-only (nomod)? Then the
+// implementation inherits the frame obligation even if its own contract does not state it.
+func (eng *Engine) ifaceNoModFor(fn *ssa.Function) (bool, []string) {
+	recv := fn.Signature.Recv()
+	if recv == nil {
+		return false, nil
+	}
+	for _, key := range sortedKeys(eng.specs.ifaces) {
+		fc := eng.specs.ifaces[key]
+		if !fc.NoMod || fc.Assumed {
+			continue
+		}
+		parts := strings.Split(key, ".")
+		if len(parts) < 3 || parts[len(parts)-1] != fn.Name() {
+			continue
+		}
+		p := eng.allPkgs[strings.Join(parts[:len(parts)-2], ".")]
+		if p == nil || p.Types == nil {
+			continue
+		}
+		obj, ok := p.Types.Scope().Lookup(parts[len(parts)-2]).(*types.TypeName)
+		if !ok {
+			continue
+		}
+		it, ok := obj.Type().Underlying().(*types.Interface)
+		if !ok || !types.Implements(recv.Type(), it) {
+			continue
+		}
+		return true, fc.Props
+	}
+	return false, nil
 }
